@@ -50,6 +50,15 @@ func Gen(t *rapid.T) Scenario {
 	if sc.RestartAgg > 0 && rapid.Bool().Draw(t, "submitdelay") {
 		sc.SubmitDelayMs = rapid.SampledFrom([]int{30, 100, 300}).Draw(t, "submitdelayms")
 	}
+	if rapid.IntRange(0, 2).Draw(t, "viaproxy") == 0 {
+		sc.ViaProxy = true
+		sc.BigTxs = true
+		sc.ClientLimit = rapid.SampledFrom([]int{16384, 16384, 40000}).Draw(t, "clientlimit")
+		sc.ExactFit = rapid.IntRange(0, 2).Draw(t, "exactfit") == 0
+	}
+	if rapid.IntRange(0, 3).Draw(t, "maxpending") == 0 {
+		sc.MaxPending = rapid.SampledFrom([]int{3, 10, 40}).Draw(t, "maxpendingv")
+	}
 	n := rapid.IntRange(1, 4).Draw(t, "nsteps")
 	at := 0
 	seq := 0
@@ -264,8 +273,8 @@ func (r *Result) Judge(id string, oracle func() *world.Problem) world.Verdict {
 	}
 	labels := r.ClassLabels()
 	if r.AggStall != "" {
-		if id == "C02" || id == "C07" || id == "C06" {
-			// not this property's subject (C01 / C11 / C13 judge it)
+		if id == "C02" || id == "C07" || (id == "C06" && r.Sc.MaxPending == 0) {
+			// not this property's subject (C01 / C08 / C11 / C13 judge it)
 			return world.Verdict{Excluded: true, Labels: append(labels, "rw:aggregator-stalled")}
 		}
 		return world.Fail(id+"/real/aggregator-stalled", "%s", r.AggStall)
@@ -273,8 +282,8 @@ func (r *Result) Judge(id string, oracle func() *world.Problem) world.Verdict {
 	if r.Stall != "" {
 		return world.Fail(id+"/real/stalled", "%s", r.Stall)
 	}
-	if r.IncStall != "" && (id == "C07" || id == "C13") {
-		return world.Fail(id+"/real/aggregator-inclusion-stalled-after-clean-restart", "%s", r.IncStall)
+	if r.IncStall != "" && (id == "C07" || id == "C13" || id == "C06" || id == "C08") {
+		return world.Fail(id+"/real/aggregator-inclusion-stalled", "%s", r.IncStall)
 	}
 	if r.StopLivelock != "" && id == "C13" {
 		return world.Fail(id+"/real/stop-ignored-by-busy-loop", "%s", r.StopLivelock)
